@@ -1,4 +1,7 @@
 import Tmv.Lemmas.SyncNet
+import Tmv.Lemmas.VoteReachRun
+import Tmv.Lemmas.GoodRound
+import Tmv.Lemmas.SyncClosure
 /-! # C03 — termination: correct nodes decide once the network behaves  (**partial**)
 
 Models: `Tmv.Cons` (one node, `consensus/state.go` statement by statement; tied to the real
@@ -183,6 +186,68 @@ theorem commit_step_waits_for_block (c : Cfg) (s : NodeState) (r b : Nat)
     (addBlockPart c s b).decided = some (b, (r : Int)) :=
   commit_step_block_arrival_decides c s r b hh hst hcr hm hp hd hv
 
+/-! ### vote-set arithmetic: delivered votes yield the recorded majority, in any order -/
+
+/-- every vote set a node ever holds, after ANY input list, satisfies the well-formedness invariant
+`VoteSet.WF` (distinct bucket members, sums = powers, a bucket at or above the quorum implies a
+recorded majority, …) -/
+theorem vote_sets_well_formed (c : Cfg) (me : Nat) (hc : c.self = some me) (is : List Input) :
+    HVS.WF c (run c .init is).votes := run_WF hc is
+
+/-- **a delivered vote is recorded and stays recorded**: at the moment the vote arrives (`pre` has
+been handled) the node is live and tracks the vote's round, the vote is well signed and its validator
+has no conflicting vote in that set ⇒ it is in the set after the whole run `pre ++ vote :: post`,
+whatever `post` contains. -/
+theorem delivered_vote_recorded (c : Cfg) (me : Nat) (hc : c.self = some me) (pre post : List Input)
+    (v : Vote) (peer : Peer) (hv : v.wellSigned c)
+    (hlive : (run c .init pre).halted = false ∧ (run c .init pre).decided = none)
+    (ht : ((run c .init pre).votes.getVoteSet (v.round : Int) v.typ).isSome = true)
+    (ho : (run c .init pre).votes.only (v.round : Int) v.typ v.bid v.val) :
+    (run c .init (pre ++ Input.vote v peer :: post)).votes.has (v.round : Int) v.typ v.bid v.val :=
+  Cons.delivered_vote_recorded hc pre post v peer hv hlive ht ho
+
+/-- **votes carrying the quorum yield the recorded +2/3 majority** — after ANY run (any order, any
+junk from other validators, conflicting votes of faulty validators in other buckets, majority claims,
+catch-up rounds, timeouts): if validators `Q` (distinct, power at least the quorum) all have a
+recorded vote for `b` in the set of (r, t), no vote input of the run carries another value for one of
+them, and the node itself — if it is one of them — signed nothing else, the recorded majority of
+that set is `b`. -/
+theorem votes_yield_majority (c : Cfg) (me : Nat) (hc : c.self = some me) (is : List Input)
+    (r : Nat) (t : VType) (b : Bid) (Q : List Nat) (hn : Q.Nodup)
+    (hq : ∀ u ∈ Q, u < c.n ∧ (run c .init is).votes.has (r : Int) t b u)
+    (hin : ∀ v peer, Input.vote v peer ∈ is → v.typ = t → v.round = r → v.val ∈ Q → v.bid = b)
+    (hown : me ∈ Q → ∀ x, Output.signVote t r x ∈ (run c .init is).out → x = b)
+    (hp : c.quorum ≤ (Q.map c.power).sum) :
+    maj23Of ((run c .init is).votes.getVoteSet (r : Int) t) = some b :=
+  Cons.votes_yield_majority hc is r t b Q hn hq hin hown hp
+
+/-- **recorded votes for anything of validators carrying more than 2/3 of the power yield
+`hasTwoThirdsAny`** (what round skipping and the wait steps test) -/
+theorem votes_yield_any (c : Cfg) (me : Nat) (hc : c.self = some me) (is : List Input)
+    (r : Nat) (t : VType) (R : List Nat) (hn : R.Nodup)
+    (hr : ∀ u ∈ R, u < c.n ∧ ∃ k, (run c .init is).votes.has (r : Int) t k u)
+    (hp : c.total * 2 / 3 < (R.map c.power).sum) :
+    hasAnyOf c ((run c .init is).votes.getVoteSet (r : Int) t) = true :=
+  Cons.votes_yield_any hc is r t R hn hr hp
+
+/-! ### one node, one good round -/
+
+/-- **good_round_decides_node**: a node that has just entered round `r` (`GoodStart`: propose step,
+nothing of the round received yet, unlocked or locked on `b`, `b` valid, the validators of
+`me :: Q1` / `me :: Q2` carry the quorum and hold no conflicting votes at this node) is delivered the
+proposal of the round's proposer for `b` and its block, and then — in ANY interleaving (`hperm`) — the
+prevotes for `b` of `Q1` and the precommits for `b` of `Q2`; its own proposal-completion, prevote and
+precommit travel through the internal queue as in the real receive routine. Then it decides `b` in
+round `r`. (`hfresh`: the start state does not already contain the node's own precommit together with
+a recorded precommit majority — without it the statement is false, `Cons.good_round_needs_fresh`.) -/
+theorem good_round_decides_node (c : Cfg) (me : Nat) (s : NodeState) (r b : Nat) (Q1 Q2 : List Nat)
+    (hs : GoodStart c me s r b Q1 Q2) (pr : Nat) (hpr : c.proposer s.valRound = pr ∧ pr < c.n)
+    (hfresh : maj23Of (s.votes.precommits (r : Int)) = none ∨ ¬ s.votes.has (r : Int) .precommit (some b) me)
+    (votes : List Input)
+    (hperm : votes.Perm (goodVotes r b .prevote Q1 ++ goodVotes r b .precommit Q2)) :
+    (run c s ([Input.proposal ⟨r, b, -1, pr⟩, Input.blockComplete b] ++ votes)).decided = some (b, (r : Int)) :=
+  Cons.good_round_decides_node c me s r b Q1 Q2 hs pr hpr hfresh votes hperm
+
 /-! ### the network, every schedule -/
 
 /-- **decisions are final**: whatever the scheduler and the faulty validators do (any list of
@@ -226,6 +291,58 @@ theorem commit_quorum_vote_decides (c : Cfg) (s : NodeState) (v : Vote) (peer : 
     (hval : c.valid b = true) :
     (step c s (.vote v peer)).decided = some (b, (r : Int)) :=
   step_commit_quorum_decides c s v peer r b hh hd hr hst hv hadd hm hb hval
+
+/-- **every node of the net is the node model run on some input list**, under every schedule: all
+single-node theorems (`Tmv.Cons`, C02, the vote arithmetic above) apply to the nodes of the net -/
+theorem nodes_are_runs (c : SCfg) (correct : List Nat) (ops : List Op) :
+    AllNodes (fun idx s => ∃ is, s = Cons.run (nodeCfg c.cfg idx) .init is) ((Net.init correct).run c ops) :=
+  Sync.nodes_are_runs c correct ops
+
+/-- … in particular every vote set of every node of every reachable net is well-formed -/
+theorem net_vote_sets_well_formed (c : SCfg) (correct : List Nat) (ops : List Op) :
+    AllNodes (fun idx s => HVS.WF (nodeCfg c.cfg idx) s.votes) ((Net.init correct).run c ops) := by
+  intro nd hm
+  obtain ⟨is, e⟩ := Sync.nodes_are_runs c correct ops nd hm
+  show HVS.WF (nodeCfg c.cfg nd.idx) nd.s.votes
+  rw [e]
+  exact run_WF (me := nd.idx) rfl is
+
+/-- **what the idealised gossip achieves** (`closure`, when its loop ends at a fixpoint rather than
+by running out of fuel): every logged vote of another validator is recorded at every node that is
+live, tracks the vote's round and holds no conflicting vote of that validator. Together with
+`votes_yield_majority`: after closure a +2/3 majority that exists in the log is recorded at every
+such node. -/
+theorem closure_records_votes (c : SCfg) (correct : List Nat) (ops : List Op)
+    (hconv : ((Net.init correct).run c ops).closureConverged c)
+    (i k : Nat) (nd : Node) (v : Vote)
+    (hi : (((Net.init correct).run c ops).closure c).nodes[i]? = some nd)
+    (hk : (((Net.init correct).run c ops).closure c).log[k]? = some (.vote v))
+    (hv : v.wellSigned (nodeCfg c.cfg nd.idx)) (hnot : v.val ≠ nd.idx)
+    (hlive : nd.s.halted = false ∧ nd.s.decided = none)
+    (ht : (nd.s.votes.getVoteSet (v.round : Int) v.typ).isSome = true)
+    (ho : nd.s.votes.only (v.round : Int) v.typ v.bid v.val) :
+    nd.s.votes.has (v.round : Int) v.typ v.bid v.val :=
+  Sync.closure_records_votes c _ hconv (net_vote_sets_well_formed c correct ops) i k nd v hi hk hv hnot hlive ht ho
+
+/-- **after closure a +2/3 majority that exists in the log is recorded at every node that can take
+it** (polkas and commits spread): validators `Q` (distinct, carrying the quorum) have their votes
+(t, r, b) in the log — the node's own one, if it is among them, recorded at the node —; the node is
+live, tracks round `r` and holds no conflicting vote of any of them ⇒ its set of (r, t) has the
+recorded majority `b`. -/
+theorem closure_spreads_majority (c : SCfg) (correct : List Nat) (ops : List Op)
+    (hconv : ((Net.init correct).run c ops).closureConverged c)
+    (i : Nat) (nd : Node) (hi : (((Net.init correct).run c ops).closure c).nodes[i]? = some nd)
+    (r : Nat) (t : VType) (b : Bid) (Q : List Nat) (hn : Q.Nodup) (hlt : ∀ u ∈ Q, u < c.cfg.n)
+    (hlog : ∀ u ∈ Q, u ≠ nd.idx → ∃ k : Nat,
+      (((Net.init correct).run c ops).closure c).log[k]? = some (Msg.vote ⟨t, r, b, u, true, u, u⟩))
+    (hself : nd.idx ∈ Q → nd.s.votes.has (r : Int) t b nd.idx)
+    (hlive : nd.s.halted = false ∧ nd.s.decided = none)
+    (ht : (nd.s.votes.getVoteSet (r : Int) t).isSome = true)
+    (honly : ∀ u ∈ Q, nd.s.votes.only (r : Int) t b u)
+    (hp : (nodeCfg c.cfg nd.idx).quorum ≤ (Q.map (nodeCfg c.cfg nd.idx).power).sum) :
+    maj23Of (nd.s.votes.getVoteSet (r : Int) t) = some b :=
+  Sync.closure_spreads_majority c _ hconv (net_vote_sets_well_formed c correct ops) i nd hi r t b Q hn hlt
+    hlog hself hlive ht honly hp
 
 /-- the same for a synchronous suffix -/
 theorem decisions_are_final_in_suffix (c : SCfg) (net : Net) (moves : List Op) (i : Nat) (d : Nat × Int)
@@ -378,6 +495,98 @@ theorem witness_violates_no_orphan_commit : ¬ NoOrphanCommit exFinal := by
   have h2 := orphan_commit_state.2.2.2.2.2.2.2.2.2.2.2
   rw [h1] at h2; cases h2
 
+/-! ### why "delivered in any order" needs re-delivery and the propose timeout -/
+
+/-- validator 1 of the witness configuration (not the proposer of round 0) -/
+def exNode1 : Cfg := nodeCfg exCfg.cfg 1
+
+def exPvIn (r : Nat) (b : Bid) (v : Nat) : Input := .vote ⟨.prevote, r, b, v, true, v, v⟩ (1 + v)
+
+/-- **a block part that arrives before the node knows the part-set header is lost**: the block, then
+the proposal — the node ends up with the proposal but without the block (`addProposalBlockPart`
+drops parts while `ProposalBlockParts == nil`); only a second delivery of the block completes the
+proposal and makes the node prevote. (This is why the gossip of the statement — and `closure` —
+re-delivers.) -/
+theorem block_before_header_is_lost :
+    let is := [Input.timeout 0 .newHeight, .blockComplete 0, .proposal ⟨0, 0, -1, 0⟩]
+    (run exNode1 .init is).proposalBlock = none ∧ (run exNode1 .init is).step = .propose ∧
+    (run exNode1 .init (is ++ [.blockComplete 0])).proposalBlock = some 0 ∧
+    Output.signVote .prevote 0 (some 0) ∈ (run exNode1 .init (is ++ [.blockComplete 0])).out := by
+  decide
+
+/-- the inputs of the next witness: the prevotes of validators 0, 2, 3 (a polka, which makes the
+part-set header known), the block, and only then the proposal -/
+def exLateProposal : List Input :=
+  [.timeout 0 .newHeight, exPvIn 0 (some 0) 0, exPvIn 0 (some 0) 2, exPvIn 0 (some 0) 3,
+   .blockComplete 0, .proposal ⟨0, 0, -1, 0⟩]
+
+/-- **a proposal that arrives after its block is acted upon only by the propose timeout**
+(`handleMsg` runs no transition after `setProposal`): the node holds the complete proposal AND the
++2/3 prevotes for it, sits in the propose step and has signed nothing; delivering everything again
+changes nothing; the propose timeout makes it prevote and precommit at once. So "decides in round r
+whatever the order" holds only together with "timeouts fire when nothing else is enabled". -/
+theorem proposal_after_block_waits_for_timeout :
+    (run exNode1 .init exLateProposal).step = .propose ∧
+    (run exNode1 .init exLateProposal).proposalBlock = some 0 ∧
+    (run exNode1 .init exLateProposal).proposal.isSome = true ∧
+    maj23Of ((run exNode1 .init exLateProposal).votes.prevotes 0) = some (some 0) ∧
+    (∀ t r x, Output.signVote t r x ∉ (run exNode1 .init exLateProposal).out) ∧
+    (run exNode1 .init (exLateProposal ++ exLateProposal)).step = .propose ∧
+    Output.signVote .precommit 0 (some 0) ∈
+      (run exNode1 .init (exLateProposal ++ [.timeout 0 .propose])).out := by
+  refine ⟨by decide, by decide, by decide, by decide, ?_, by decide, by decide⟩
+  intro t r x h
+  have : (run exNode1 .init exLateProposal).out = [.schedule 0 .propose] := by decide
+  rw [this] at h
+  simp at h
+
+/-- the same run is an instance of `votes_yield_majority` (hypotheses evaluated): validators 0, 2, 3
+carry the quorum 3 of 4 and are recorded for block 0 in the prevote set of round 0 -/
+example : (∀ u ∈ [0, 2, 3], u < exNode1.n ∧
+      (run exNode1 .init exLateProposal).votes.has (0 : Nat) .prevote (some 0) u) ∧
+    exNode1.quorum ≤ ([0, 2, 3].map exNode1.power).sum ∧
+    maj23Of ((run exNode1 .init exLateProposal).votes.getVoteSet (0 : Nat) .prevote) = some (some 0) := by
+  refine ⟨?_, by decide, by decide⟩
+  intro u hu
+  have hb : ∀ u ∈ [0, 2, 3], u < exNode1.n ∧
+      (run exNode1 .init exLateProposal).votes.hasB (0 : Nat) .prevote (some 0) u = true := by decide
+  exact ⟨(hb u hu).1, HVS.has_of_hasB (hb u hu).2⟩
+
+/-! ### a lock that outlives its releasing polka (second known finding) -/
+
+/-- validator 0 of the witness configuration (the proposer of round 0) -/
+def exNode0 : Cfg := nodeCfg exCfg.cfg 0
+
+/-- validator 0 proposes block 0 and locks it on the polka of round 0 (its own prevote and those of
+validators 1 and 3); then it is handed the complete polka for block 1 of round 1 (validators 1, 2, 3)
+— while it is in round 0, so the unlock rule `LockedRound < vote.Round <= cs.Round` does not fire —
+and the prevotes of round 2, on which it moves on to round 2 -/
+def exStaleLock : List Input :=
+  [.timeout 0 .newHeight, exPvIn 0 (some 0) 1, exPvIn 0 (some 0) 3,
+   exPvIn 1 (some 1) 1, exPvIn 1 (some 1) 2, exPvIn 1 (some 1) 3,
+   exPvIn 2 (some 1) 1, exPvIn 2 (some 1) 2, exPvIn 2 none 3]
+
+/-- everything of round 1 again, and the round-2 proposal for block 1 with POL round 1 and its block -/
+def exStaleMore : List Input :=
+  [exPvIn 1 (some 1) 1, exPvIn 1 (some 1) 2, exPvIn 1 (some 1) 3, .proposal ⟨2, 1, 1, 2⟩, .blockComplete 1]
+
+/-- **closure_single_lock is false of the code** (known finding `sync.stale-lock-never-released`,
+replayed on real nodes: corpus/C03/stale-lock-after-round-skip.ops): the node is in round 2, still
+locked on block 0 since round 0, although it holds the +2/3 prevotes for block 1 of round 1 and
+`LockedRound < 1 ≤ Round`; the unlock rule is only evaluated when a prevote of round 1 is ADDED, so
+delivering all of them again changes nothing; and given the complete round-2 proposal for block 1
+with POL round 1 it prevotes its locked block 0 (`defaultDoPrevote` ignores the POL round). With the
+two other correct nodes locked on block 1 by that polka and the faulty validator silent, no round
+reaches +2/3 again. -/
+theorem stale_lock_survives_its_polka :
+    (run exNode0 .init exStaleLock).round = 2 ∧ (run exNode0 .init exStaleLock).lockedBlock = some 0 ∧
+    (run exNode0 .init exStaleLock).lockedRound = 0 ∧
+    maj23Of ((run exNode0 .init exStaleLock).votes.prevotes 1) = some (some 1) ∧
+    (run exNode0 .init (exStaleLock ++ exStaleMore)).lockedBlock = some 0 ∧
+    isProposalComplete (run exNode0 .init (exStaleLock ++ exStaleMore)) = true ∧
+    Output.signVote .prevote 2 (some 0) ∈ (run exNode0 .init (exStaleLock ++ exStaleMore)).out := by
+  decide
+
 /-! ### non-vacuity of the hypotheses above -/
 
 /-- a node state satisfying the hypotheses of `commit_step_waits_for_block`: validator 2 of the
@@ -400,6 +609,52 @@ example : exWaitingNet.log[1]? = some (.block 0) ∧
     (exWaitingNet.nodes[1]?.map fun nd => (nd.s.step, nd.s.halted, nd.s.decided, nd.s.partsDone)) =
       some (.commit, false, none, false) ∧
     (exWaitingNet.deliver exCfg 1 1).decidedAt 1 = some (0, 0) := by decide +kernel
+
+/-- validator 1 right after it entered round 0 (it is not the proposer) -/
+def exFresh : NodeState := run exNode1 .init [.timeout 0 .newHeight]
+
+theorem exFresh_only (t : VType) (key : Bid) (u : Nat) : exFresh.votes.only (0 : Nat) t key u := by
+  have hout : exFresh.out = [.schedule 0 .propose] := by decide
+  have h := run_X (c := exNode1) (me := 1) (base := []) (E := fun _ => False) (outF := exFresh.out)
+    (h0 := HVS.init) rfl [.timeout 0 .newHeight] (N.init 1) (by intro v peer hm; simp at hm)
+    (fun _ ho => ho) (HExt.refl _ _ _)
+  apply h.only (HVS.only_init _ _ _ _)
+  intro w hw
+  rcases hw.2.2 with hf | ⟨_, hs⟩
+  · exact hf.elim
+  · rw [hout] at hs; simp at hs
+
+/-- the hypotheses of `good_round_decides_node` hold of it, with the validators 0 and 2 as the other
+voters (1 + 2 of 4 = the quorum 3) -/
+example : GoodStart exNode1 1 exFresh 0 0 [0, 2] [0, 2] where
+  self := rfl
+  mock := rfl
+  meLt := by decide
+  live := by decide
+  round := by decide
+  step := by decide
+  noProp := by decide
+  queue := by decide
+  lock := Or.inl (by decide)
+  valid := by decide
+  hvsRound := by decide
+  tracked := by decide
+  wf := run_WF (me := 1) rfl _
+  notVoted := by
+    intro t x h
+    have hout : exFresh.out = [.schedule 0 .propose] := by decide
+    rw [hout] at h; simp at h
+  clean1 := fun u _ => exFresh_only _ _ u
+  clean2 := fun u _ => exFresh_only _ _ u
+  q1 := ⟨by decide, by decide, by decide⟩
+  q2 := ⟨by decide, by decide, by decide⟩
+
+/-- … and one interleaving of the votes (a precommit first), evaluated -/
+example : exNode1.proposer exFresh.valRound = 0 ∧
+    (maj23Of (exFresh.votes.precommits (0 : Nat)) = none) ∧
+    (run exNode1 exFresh ([Input.proposal ⟨0, 0, -1, 0⟩, Input.blockComplete 0] ++
+      (goodVotes 0 0 .precommit [2] ++ goodVotes 0 0 .prevote [0, 2] ++ goodVotes 0 0 .precommit [0]))).decided = some (0, 0) := by
+  decide
 
 /-- the round-robin schedule of the witness configuration is fair with window 4 -/
 example : FairSchedule exCfg.cfg 4 := by
